@@ -586,10 +586,12 @@ func state1(s *scanner, c byte) state {
 func state0(s *scanner, c byte) state {
 	if c == '.' {
 		s.step = stateDot
+		s.unfinishedLiteral = true
 		return scanContinue
 	}
 	if c == 'e' || c == 'E' {
 		s.step = stateE
+		s.unfinishedLiteral = true
 		return scanContinue
 	}
 	return stateEndValue(s, c)
@@ -600,6 +602,7 @@ func state0(s *scanner, c byte) state {
 func stateDot(s *scanner, c byte) state {
 	if bytes.IsDigit(c) {
 		s.step = stateDot0
+		s.unfinishedLiteral = false
 		return scanContinue
 	}
 	panic(s.newJSchemaErrorAtCharacter("after decimal point in numeric literal"))
@@ -613,6 +616,7 @@ func stateDot0(s *scanner, c byte) state {
 	}
 	if c == 'e' || c == 'E' {
 		s.step = stateE
+		s.unfinishedLiteral = true
 		return scanContinue
 	}
 	return stateEndValue(s, c)
@@ -633,6 +637,7 @@ func stateE(s *scanner, c byte) state {
 func stateESign(s *scanner, c byte) state {
 	if bytes.IsDigit(c) {
 		s.step = stateE0
+		s.unfinishedLiteral = false
 		return scanContinue
 	}
 	panic(s.newJSchemaErrorAtCharacter("in exponent of numeric literal"))
